@@ -447,9 +447,7 @@ void exhaustive(const vf::Options& o, vf::Tally& tally)
    tally.classes["exhaustive_cases"] = n_cases;
 }
 
-}   // namespace
-
-int main(int argc, char** argv)
+vf::Hooks<Case> make_hooks(const vf::Options&)
 {
    vf::Hooks<Case> hk;
    hk.generator = generator;
@@ -458,5 +456,22 @@ int main(int argc, char** argv)
    hk.from_text = from_text;
    hk.sample = sample;
    hk.exhaustive = exhaustive;
-   return vf::drive<Case>(argc, argv, "C08", hk);
+   return hk;
 }
+
+// libFuzzer mode: flavour byte, comparator byte, then one key per two bytes.  A third leading byte picks the key
+// width: narrow keys (8 significant bits) make duplicates and dense runs likely, wide keys spread over the whole range.
+bool decode(const std::uint8_t* d, std::size_t n, const vf::Options&, Case& c)
+{
+   c = Case{};
+   if (n < 5) return false;
+   c.flavor = d[0] % 2;
+   c.cmp = d[1] % 3;
+   const unsigned mask = d[2] % 3 == 0 ? 0xffu : (d[2] % 3 == 1 ? 0xfffu : unsigned(key_limit - 1));
+   for (std::size_t i = 3; i + 2 <= n; i += 2) c.keys.push_back(int((unsigned(d[i]) | unsigned(d[i + 1]) << 8) & mask));
+   return true;
+}
+
+}   // namespace
+
+VF_MAIN(Case, "C08", make_hooks, decode)
